@@ -556,26 +556,138 @@ fn mid_draw_case(seed: u64, idx: u64) -> CaseOut {
     co
 }
 
+// ---- tracker snapshot lane ----------------------------------------------------------------------------
+// A stateful custom key may copy what it needs in tick() and print the copy in write(). Position changes
+// can be silent (swallowed by the 1 ms / burst-10 bucket, or made while a steady ticker is installed);
+// the next operation that repaints the bar must hand the trackers the current state before the frame is
+// formatted, whichever operation it is.
+
+#[derive(Clone)]
+struct SnapTracker(Arc<Mutex<(u64, Option<u64>)>>);
+
+impl ProgressTracker for SnapTracker {
+    fn clone_box(&self) -> Box<dyn ProgressTracker> {
+        Box::new(self.clone())
+    }
+    fn tick(&mut self, state: &ProgressState, _: HInstant) {
+        *self.0.lock().unwrap() = (state.pos(), state.len());
+    }
+    fn reset(&mut self, state: &ProgressState, _: HInstant) {
+        *self.0.lock().unwrap() = (state.pos(), state.len());
+    }
+    fn write(&self, _: &ProgressState, w: &mut dyn Write) {
+        let s = self.0.lock().unwrap();
+        let _ = write!(w, "S<{}|{:?}>", s.0, s.1);
+    }
+}
+
+fn tracker_snapshot_case(seed: u64, idx: u64) -> CaseOut {
+    let mut rng = Rng::derive(seed, 1112, idx);
+    let replay = format!("t{seed}:{idx}");
+    let clock = Arc::new(AtomicU64::new(11_000_000_000));
+    install_session(&clock);
+    let silent_by = rng.below(2); // 0: swallowed by the bucket, 1: steady ticker installed
+    // (finishing repaints without ticking the trackers - by design it is not a tick - so it is not part of this lane)
+    let repaint = rng.below(6);
+    let repaint_name = ["set_prefix", "set_message", "set_length", "unset_length", "inc_length", "tick", "finish_with_message"][repaint as usize];
+    let (pb, spy) = new_bar(80, 100, Some(1000));
+    let witness = J::obj().with("silent_change", ["burst of position updates at one instant", "position update under a steady ticker"][silent_by as usize]).with("repainting_call", repaint_name);
+    let mut co = CaseOut::held(fnv1a(format!("{silent_by}{repaint}{idx}").as_bytes()), true);
+    let res = catch_unwind(AssertUnwindSafe(|| -> Verdict {
+        pb.set_style(ProgressStyle::with_template("{pos}/{len}|{snap}").unwrap().with_key("snap", SnapTracker(Arc::new(Mutex::new((0, None))))));
+        pb.tick();
+        clock.fetch_add(50_000_000, Ordering::SeqCst);
+        if silent_by == 0 {
+            // more updates than the bucket holds, all at the same instant: the last ones change the position silently
+            for _ in 0..rng.range(12, 30) {
+                pb.inc(1);
+            }
+        } else {
+            pb.enable_steady_tick(std::time::Duration::from_secs(3600));
+            // (the ticker's own first tick happens right away; wait for it so that it cannot land later)
+            let t0 = std::time::Instant::now();
+            while spy.flushes() < 2 && t0.elapsed().as_millis() < 2000 {
+                std::thread::yield_now();
+            }
+            pb.inc(rng.range(1, 50));
+            pb.set_position(rng.range(100, 900));
+        }
+        let pos = pb.position();
+        spy.state().log = Some(Vec::new());
+        let before = spy.flushes();
+        match repaint {
+            0 => pb.set_prefix("p"),
+            1 => pb.set_message("m"),
+            2 => pb.set_length(2000),
+            3 => pb.unset_length(),
+            4 => pb.inc_length(5),
+            5 => {
+                if silent_by == 1 {
+                    pb.set_message("m2")
+                } else {
+                    pb.tick()
+                }
+            }
+            _ => pb.finish_with_message("f"),
+        }
+        let painted = spy.flushes() > before;
+        let lines = last_frame_lines(&spy);
+        let (pos_after, len_after) = (pb.position(), pb.length());
+        if silent_by == 1 {
+            pb.disable_steady_tick();
+        }
+        pb.abandon();
+        if !painted {
+            return Verdict::Inconclusive(format!("{repaint_name} did not repaint the bar"));
+        }
+        let want = format!("{pos_after}/{}|S<{pos_after}|{len_after:?}>", len_after.unwrap_or(pos_after));
+        let got = lines.first().map(|l| l.trim_end().to_string()).unwrap_or_default();
+        if got != want {
+            return viol(
+                "custom-key-stale-state",
+                vec!["custom".into(), "silent-position-change".into(), repaint_name.into()],
+                format!("the position reached {pos} without the trackers being told; the frame painted by {repaint_name} reads {got:?} - the stateful custom key should have been ticked with the current state first: {want:?}"),
+                witness.clone(),
+                replay.clone(),
+            );
+        }
+        Verdict::Held
+    }));
+    match res {
+        Ok(v) => co.verdict = v,
+        Err(p) => {
+            std::mem::forget(pb);
+            co.verdict = viol("panic", vec!["custom".into()], format!("panicked: {}", crate::world::panic_message(&p)), witness, replay);
+        }
+    }
+    indicatif::verif_hooks::install(None);
+    co.count("tracker_snapshot_frames_checked", 1);
+    co
+}
+
 pub fn run(cfg: &RunCfg) -> PropResult {
     console::set_colors_enabled(false);
     let report = if let Some(case) = &cfg.case {
         let mid = case.starts_with('m');
-        let mut it = case.trim_start_matches('m').split(':');
+        let snap = case.starts_with('t');
+        let mut it = case.trim_start_matches(['m', 't']).split(':');
         let seed: u64 = it.next().and_then(|s| s.parse().ok()).unwrap_or(cfg.seed);
         let idx: u64 = it.next().and_then(|s| s.parse().ok()).unwrap_or(0);
         let mut r = crate::report::Report::default();
-        r.add(idx, if mid { mid_draw_case(seed, idx) } else { run_case(seed, idx) });
+        r.add(idx, if snap { tracker_snapshot_case(seed, idx) } else if mid { mid_draw_case(seed, idx) } else { run_case(seed, idx) });
         r
     } else {
         let n = if cfg.thorough { 4_000_000 } else { 80_000 };
         let mut r = run_parallel(n, workers(), |i| run_case(cfg.seed, i));
         let nm = if cfg.thorough { 200_000 } else { 4_000 };
         r.merge(crate::report::run_parallel_tagged('m', nm, workers(), |i| mid_draw_case(cfg.seed, i)));
+        let nt = if cfg.thorough { 40_000 } else { 1_500 };
+        r.merge(crate::report::run_parallel_tagged('t', nt, workers(), |i| tracker_snapshot_case(cfg.seed, i)));
         r
     };
     PropResult {
         report,
-        rule: "each evaluation: a bar with every documented non-bar key (26) plus a custom key and an unknown key on separate template lines goes through 1-25 updates (inc/set_position incl. u64 extremes, set_length/unset_length, texts, ticks, reset, abandon; >= 1 ms of virtual time between operations, up to days) (a quarter of the bars start on a hidden target and receive the terminal through set_draw_target somewhere along the history) and is drawn once; each rendered line is compared with the corresponding getter read at the same frozen instant passed through the public formatter; custom tracker tick/reset/write calls are logged and compared with the bar; distinct = (initial length, history) hash; mid-draw lane: a custom key between 2-8 pos/len-family keys lets a helper thread run inc/dec/set_position while the frame is being rendered (the update is lock-free) and the frame must still describe one single position".into(),
+        rule: "each evaluation: a bar with every documented non-bar key (26) plus a custom key and an unknown key on separate template lines goes through 1-25 updates (inc/set_position incl. u64 extremes, set_length/unset_length, texts, ticks, reset, abandon; >= 1 ms of virtual time between operations, up to days) (a quarter of the bars start on a hidden target and receive the terminal through set_draw_target somewhere along the history) and is drawn once; each rendered line is compared with the corresponding getter read at the same frozen instant passed through the public formatter; custom tracker tick/reset/write calls are logged and compared with the bar; distinct = (initial length, history) hash; mid-draw lane: a custom key between 2-8 pos/len-family keys lets a helper thread run inc/dec/set_position while the frame is being rendered (the update is lock-free) and the frame must still describe one single position; tracker snapshot lane: after a silent position change (updates swallowed by the burst bucket, or made under a steady ticker) the frame painted by set_prefix/set_message/set_length/unset_length/inc_length/tick must show a stateful custom key ticked with the current state".into(),
         exhaustive: false,
     }
 }
